@@ -55,17 +55,52 @@ def generate_path(lean_dir: str):
     # placed before the first os.path.join
     guard_line = None
     join_line = None
+    guard_lean = None
+
+    def _side(e):
+        """One side of the guard's comparison: `filename`, `name`, or os.path.basename of one of them."""
+        if isinstance(e, ast.Name) and e.id in ("filename", "name"):
+            return e.id
+        if isinstance(e, ast.Call) and ast.unparse(e.func) == "os.path.basename" and len(e.args) == 1 and not e.keywords:
+            return "(basename %s)" % _side(e.args[0])
+        raise P.Untranslatable("_load_data guard: operand %s is outside the translated subset" % ast.unparse(e))
+
     for n in ast.walk(load):
+        # round 6: the comparison itself is TRANSLATED (operator and both operands), not merely recognised: an edit
+        # of the guard changes `cmapGuardRejects`, which `cmapProbes` uses and the confinement theorems are about
         if isinstance(n, ast.If) and isinstance(n.test, ast.Compare) and len(n.test.ops) == 1 and \
-                isinstance(n.test.ops[0], ast.NotEq) and ast.unparse(n.test.left) == "os.path.basename(filename)" and \
-                ast.unparse(n.test.comparators[0]) == "filename" and any(isinstance(b, ast.Raise) for b in n.body):
+                isinstance(n.test.ops[0], (ast.NotEq, ast.Eq)) and "basename" in ast.unparse(n.test) and \
+                len(n.body) == 1 and isinstance(n.body[0], ast.Raise) and not n.orelse and guard_line is None:
             guard_line = n.lineno
+            op = "!=" if isinstance(n.test.ops[0], ast.NotEq) else "=="
+            guard_lean = "%s %s %s" % (_side(n.test.left), op, _side(n.test.comparators[0]))
         if isinstance(n, ast.Call) and ast.unparse(n.func) == "os.path.join" and any(
                 isinstance(a, ast.Name) and a.id == "filename" for a in n.args):
             join_line = n.lineno if join_line is None else min(join_line, n.lineno)
     if guard_line is None or join_line is None or not guard_line < join_line:
         raise P.Untranslatable("_load_data: the confinement guard `os.path.basename(filename) != filename -> raise` "
                                "does not precede os.path.join(directory, filename)")
+    # round 6: the tuple of resource directories is translated: the environment variable, its DEFAULT literal and the
+    # sub-directory of the package (an edit of the default - e.g. to "" = the working directory - changes
+    # `cmapPathDefault`, and `C15_cmap_dirs_absolute` is about it)
+    paths = [n for n in ast.walk(load) if isinstance(n, ast.Assign) and len(n.targets) == 1 and
+             isinstance(n.targets[0], ast.Name) and n.targets[0].id == "cmap_paths"]
+    if len(paths) != 1 or not isinstance(paths[0].value, ast.Tuple) or len(paths[0].value.elts) != 2:
+        raise P.Untranslatable("_load_data: cmap_paths is not a tuple of two directories")
+    e0, e1 = paths[0].value.elts
+    if not (isinstance(e0, ast.Call) and ast.unparse(e0.func) == "os.environ.get" and len(e0.args) == 2 and not e0.keywords and
+            all(isinstance(a, ast.Constant) and isinstance(a.value, str) for a in e0.args)):
+        raise P.Untranslatable("_load_data: first resource directory is not os.environ.get(<literal>, <literal>)")
+    env_name, env_default = e0.args[0].value, e0.args[1].value
+    if not (isinstance(e1, ast.Call) and ast.unparse(e1.func) == "os.path.join" and len(e1.args) == 2 and
+            ast.unparse(e1.args[0]) == "os.path.dirname(__file__)" and isinstance(e1.args[1], ast.Constant) and
+            isinstance(e1.args[1].value, str)):
+        raise P.Untranslatable("_load_data: second resource directory is not os.path.join(os.path.dirname(__file__), <literal>)")
+    pkg_sub = e1.args[1].value
+    loops = [n for n in ast.walk(load) if isinstance(n, ast.For) and ast.unparse(n.iter) == "cmap_paths" and
+             ast.unparse(n.target) == "directory"]
+    if len(loops) != 1:
+        raise P.Untranslatable("_load_data: expected one loop `for directory in cmap_paths`")
     umap = P.find_function(cm, "CMapDB.get_unicode_map")
     upre, usuf = _split_format(_find_format(umap, "to-unicode"))
     im = P.parse_file("pdfminer/image.py")
@@ -75,6 +110,26 @@ def generate_path(lean_dir: str):
     sep = [r for r in ireps if r[1] == "sep"]
     if len(nul) != 1 or len(sep) != 1 or nul[0][2] != sep[0][2] or len(nul[0][2]) != 1:
         raise P.Untranslatable("_create_unique_image_name: expected one NUL and one separator replacement by the same character")
+    # round 6: the set of characters that are replaced is translated: NUL from the literal, the separators from the
+    # tuple the `for sep in (...)` loop runs over, evaluated for POSIX (os.sep = "/", os.altsep = None)
+    import posixpath
+    replaced = [0] if nul[0][0] in ("image.name", "image_name") else []
+    loops = [n for n in ast.walk(uniq) if isinstance(n, ast.For) and isinstance(n.target, ast.Name) and n.target.id == "sep"]
+    if len(loops) != 1 or not isinstance(loops[0].iter, ast.Tuple):
+        raise P.Untranslatable("_create_unique_image_name: expected one `for sep in (os.sep, os.altsep)` loop")
+    for e in loops[0].iter.elts:
+        src = ast.unparse(e)
+        if src not in ("os.sep", "os.altsep", "os.path.sep", "os.path.altsep"):
+            raise P.Untranslatable("_create_unique_image_name: separator %s is outside the translated subset" % src)
+        v = getattr(posixpath, src.rsplit(".", 1)[1])
+        if v:
+            replaced.append(ord(v))
+    body = loops[0].body
+    if not (len(body) == 1 and isinstance(body[0], ast.If) and ast.unparse(body[0].test) == "sep" and
+            ast.unparse(body[0].body[0]).replace('"', "'") == "image_name = image_name.replace(sep, '%s')" % sep[0][2]):
+        raise P.Untranslatable("_create_unique_image_name: the separator loop does not replace `sep` in image_name")
+    if ast.unparse(uniq.body[0]).replace('"', "'") != "image_name = image.name.replace('\\x00', '%s')" % nul[0][2]:
+        raise P.Untranslatable("_create_unique_image_name: the first statement is not the NUL replacement of image.name")
     fmts = [c for c in _consts(uniq, str) if "%d" in c]
     if fmts != ["%s.%d%s"]:
         raise P.Untranslatable(f"_create_unique_image_name: numbering format is {fmts!r}, expected ['%s.%d%s']")
@@ -90,8 +145,19 @@ def generate_path(lean_dir: str):
     out.append('/-- `"to-unicode-%s" % name` (get_unicode_map). -/\n')
     out.append(f"def toUnicodePrefix : List UInt8 := {P.lean_bytes(upre.encode('latin-1'))}\n")
     out.append(f"def toUnicodeSuffix : List UInt8 := {P.lean_bytes(usuf.encode('latin-1'))}\n\n")
+    out.append("/-- `cmap_paths` of `_load_data`: `(os.environ.get(cmapPathEnv, cmapPathDefault),\n"
+               "    os.path.join(os.path.dirname(__file__), cmapPkgSubdir))`. -/\n")
+    out.append(f"def cmapPathEnv : List UInt8 := {P.lean_bytes(env_name.encode('latin-1'))}\n")
+    out.append(f"def cmapPathDefault : List UInt8 := {P.lean_bytes(env_default.encode('latin-1'))}\n")
+    out.append(f"def cmapPkgSubdir : List UInt8 := {P.lean_bytes(pkg_sub.encode('latin-1'))}\n\n")
     out.append("/-- The character that replaces NUL and path separators in image names. -/\n")
     out.append(f"def imageReplacement : UInt8 := {ord(nul[0][2])}\n\n")
+    out.append("/-- The characters of an image name that are replaced (NUL, then os.sep / os.altsep on POSIX). -/\n")
+    out.append(f"def imageReplacedChars : List UInt8 := [{', '.join(str(c) for c in replaced)}]\n\n")
+    out.append("/-- The test of the confinement guard of `CMapDB._load_data` (true = `raise CMapNotFound`), translated\n"
+               "    from the `if` statement: `basename` stands for `os.path.basename`. -/\n")
+    out.append("def cmapGuardRejects (basename : List UInt8 → List UInt8) (name filename : List UInt8) : Bool :=\n"
+               f"  {guard_lean}\n\n")
     out.append('/-- `"%s.%d%s"`: the text between the name and the counter. -/\n')
     out.append(f"def numberingSep : List UInt8 := {P.lean_bytes(b'.')}\n")
     out.append("\nend PdfVerif.Gen.PathGen\n")
